@@ -2,6 +2,10 @@ package main
 
 import (
 	"fmt"
+	"strings"
+	"time"
+
+	"github.com/olive-io/bpmn/v2/pkg/event"
 
 	"verifharness/internal/eng"
 	"verifharness/internal/rec"
@@ -75,11 +79,41 @@ func c14engRun(out *rec.Out, idx int, rng *rec.Rng, tier string, stats map[strin
 		if k >= nEvents {
 			break
 		}
-		name := "other"
-		if rng.Intn(7) > 0 {
-			name = fmt.Sprintf("sig%d", rng.Intn(d))
+		pick := func() string {
+			if rng.Intn(7) > 0 {
+				return fmt.Sprintf("sig%d", rng.Intn(d))
+			}
+			return "other"
 		}
-		in.Deliver("signal", name, 2*timeSecond)
+		if rng.Intn(4) == 0 {
+			// a burst: 5..9 events handed in back to back by one sender, nobody waits for the node in between (the node
+			// is still busy with an earlier one when the later ones arrive); mostly non-matching ones in front
+			nb := 5 + rng.Intn(5)
+			names := make([]string, nb)
+			for i := range names {
+				names[i] = "other"
+				if i >= nb-2 || rng.Intn(3) == 0 {
+					names[i] = pick()
+				}
+			}
+			in.Op("burst %s", strings.Join(names, ","))
+			done := make(chan struct{})
+			go func() {
+				defer close(done)
+				for _, nm := range names {
+					in.Proc.ConsumeEvent(event.NewSignalEvent(nm))
+				}
+			}()
+			select {
+			case <-done:
+			case <-time.After(3 * timeSecond):
+				in.Note("obs ret burst - blocked")
+			}
+			stats["bursts"]++
+			stats["deliveries"] += nb
+			continue
+		}
+		in.Deliver("signal", pick(), 2*timeSecond)
 		stats["deliveries"]++
 	}
 	in.Quiesce(2 * timeSecond)
